@@ -734,6 +734,16 @@ def include_family(ctx, prop_id, checks, nontrivial, rule, extra=None, modes=(('
     ctx.cov['corpus_cases'] = len(corpus)
     st5 = stage_stats(ctx, cases, s5_compare, 'S5')
     n = 0; distinct = set(); kf = collections.Counter()
+    deps = collections.Counter()
+    for c in cases:
+        md = next((l for l in c.mlines if l.startswith('m5deps ')), None)
+        if md is not None:
+            deps[md] += 1
+            if 'bad' in md:
+                ctx.violations.append(('the hypotheses of the fixpoint theorems (C03_bound_chain_is_a_fixpoint, C15_bound_chain_consumes_returns) do not hold of the '
+                                       'model\'s dependency records for this chain: %s (case %s)' % (md, c.key), write_replay(ctx, 'case_%s.txt' % c.key, c.text()), False))
+    ctx.cov['fixpoint_hypotheses_checked'] = sum(deps.values())
+    ctx.cov['fixpoint_hypotheses_failed'] = sum(v for k, v in deps.items() if 'bad' in k)
     for c in cases:
         if not c.ok or c.skip:
             continue
